@@ -427,6 +427,7 @@ fn random_job(ctx: &Ctx, job: usize, iters: u64) -> Stats {
 fn api_soup_job(ctx: &Ctx, job: usize, sequences: u64, len: usize) -> Stats {
     use super::c13::{apply, Op, BIN};
     let mut st = Stats::new();
+    // (retain prints diagnostics with eprintln!; the caller silences fd 2)
     let mut rng = Rng::stream(ctx.seed, "C02.soup", job as u64);
     for seq in 0..sequences {
         let nv = 4 + rng.usize(3);
@@ -455,7 +456,10 @@ fn api_soup_job(ctx: &Ctx, job: usize, sequences: u64, len: usize) -> Stats {
                 }
             };
             let list = |rng: &mut Rng, pool: &Vec<D>, max: usize| -> Vec<usize> { (0..rng.usize(max + 1)).map(|_| pick(rng, pool)).collect() };
-            let op = match rng.below(12) {
+            let op = match rng.below(15) {
+                12 => Op::Retain(pick(&mut rng, &pool), rng.below(3) as u8),
+                13 => Op::Clean(rng.usize(pool.len())),
+                14 => Op::ExistsImpl(*rng.pick(&labels), pick(&mut rng, &pool)),
                 0 | 1 => Op::Bin(BIN[rng.usize(BIN.len())], pick(&mut rng, &pool), pick(&mut rng, &pool)),
                 2 => Op::Ite(pick(&mut rng, &pool), pick(&mut rng, &pool), pick(&mut rng, &pool)),
                 3 => Op::Not(pick(&mut rng, &pool)),
@@ -509,7 +513,7 @@ fn api_soup_job(ctx: &Ctx, job: usize, sequences: u64, len: usize) -> Stats {
 pub fn run(ctx: &Ctx) -> (Stats, Spec) {
     let mut st = Stats::new();
     let (seqs, slen) = ctx.tier.pick((400u64, 40usize), (20_000u64, 60usize));
-    let parts = util::par_jobs(16, |job| api_soup_job(ctx, job, seqs, slen));
+    let parts = super::common::with_stderr_gagged(|| util::par_jobs(16, |job| api_soup_job(ctx, job, seqs, slen)));
     st.merge(crate::report::merge_all(parts));
     // all 256 functions over 3 variables, both families
     let parts = util::par_jobs(2 * 8, |job| exhaustive_job(3, job / 8, job % 8, 8, 1));
@@ -527,7 +531,7 @@ pub fn run(ctx: &Ctx) -> (Stats, Spec) {
     st.merge(crate::report::merge_all(parts));
 
     let spec = Spec {
-        rule: "each Boolean function (all over 3 variables; every 2nd [quick] / all [thorough] over 4; random over 5-7 sparse labels incl. usize::MAX) is built by 18 independent routes through the public API (operands from another environment handed to an operation [or, absorption, ite], mk_choice, DNF, CNF, Shannon/ite, xor detour, double negation, absorption, De Morgan via nor/nand, quantifier detour, counting detour, fixed-point detour, model of minterms, retain(Any)+clean, operand-order split) alternating between two environments, plus the formula language; and random sequences of API calls (connectives, ite, quantifiers, counting over lists of plain variables in arbitrary order and compound operands, model, fp) whose every result is compared with the canonical diagram of its own truth table; distinct = (table, route, family); non-trivial = non-constant table with >= 2 support variables.".into(),
+        rule: "each Boolean function (all over 3 variables; every 2nd [quick] / all [thorough] over 4; random over 5-7 sparse labels incl. usize::MAX) is built by 18 independent routes through the public API (operands from another environment handed to an operation [or, absorption, ite], mk_choice, DNF, CNF, Shannon/ite, xor detour, double negation, absorption, De Morgan via nor/nand, quantifier detour, counting detour, fixed-point detour, model of minterms, retain(Any)+clean, operand-order split) alternating between two environments, plus the formula language; and random sequences of API calls (connectives, ite, quantifiers, counting over lists of plain variables in arbitrary order and compound operands, model, fp, retain, clean, exists_impl) whose every result is compared with the canonical diagram of its own truth table; distinct = (table, route, family); non-trivial = non-constant table with >= 2 support variables.".into(),
         assumptions: vec![
             "'hash equal' is demanded only in the direction same function => same hash; collisions between different functions are counted, not reported".into(),
             "a change replacing structural equality by hash equality would need a constructed 64-bit collision to be observed (out of reach)".into(),
@@ -553,7 +557,7 @@ pub fn replay(_ctx: &Ctx, _monitor: &str, case: &Value, st: &mut Stats) {
         let mut c2 = _ctx.clone();
         c2.seed = case.get("seed").and_then(|j| j.as_u64()).unwrap_or(_ctx.seed);
         let len = case.get("len").and_then(|j| j.as_u64()).unwrap_or(40) as usize;
-        let s2 = api_soup_job(&c2, job, seq + 1, len);
+        let s2 = super::common::with_stderr_gagged(|| api_soup_job(&c2, job, seq + 1, len));
         st.merge(s2);
         return;
     }
